@@ -27,6 +27,8 @@ type Plan struct {
 	SimDepth int
 	Twins    string // "" | "c10" | "c13": derive twin runs from the generated behaviours
 	Skew     bool   // replicas persist at different heights (wall-clock independence, C09)
+	Mempool  bool   // every second replica runs CheckTx before DeliverTx (mempool independence, C09)
+	Restart  bool   // the last replica is restarted from its state file after every Commit (C09)
 	MaxBeh   int    // cap on replayed behaviours (0 = all)
 }
 
@@ -236,7 +238,10 @@ func ReplayAndValidate(c *core.Ctx, g *Gen, replicas int) (*Outcome, error) {
 		// a spec-level counterexample is a lead: it is always replayed on the real code
 		beh = append([][]int{g.SpecCex}, beh...)
 	}
-	if g.Plan.Skew {
+	MempoolSkew = g.Plan.Mempool
+	RestartSkew = g.Plan.Restart
+	defer func() { MempoolSkew, RestartSkew = false, false }()
+	if g.Plan.Skew || g.Plan.Restart {
 		dir, err := os.MkdirTemp(os.Getenv("VERIF_SCRATCH"), "verif-skew-")
 		if err != nil {
 			return nil, err
